@@ -2,7 +2,7 @@
 import verif as V
 
 PROP = "C01"
-SPEC = ["Bng.Spec.C01", "Bng.Spec.C01Epoch", "Bng.Spec.C01FreeList", "Bng.Spec.C01Nexus", "Bng.Spec.C01Cluster", "Bng.Spec.C16PppoeWhole"]
+SPEC = ["Bng.Spec.C01", "Bng.Spec.C01Epoch", "Bng.Spec.C01FreeList", "Bng.Spec.C01Nexus", "Bng.Spec.C01Cluster", "Bng.Spec.C16PppoeWhole", "Bng.Spec.C01V6Construct"]
 # monitors of the pool specification that belong to C01 (C05 owns count/exhaustion/lost/total)
 MON = ["unique", "idempotent", "range", "agree"]
 # epoch (lease) allocator: Bng.LeaseSpec adds expiry/reclaimed to the pool monitor
@@ -19,6 +19,10 @@ COMPS = [
     V.Component("v6addr", harness="v6pool", monitors=MON, exec_env={"V6POOL_KIND": "addr"}),
     V.Component("v6prefix", harness="v6pool", monitors=MON, exec_env={"V6POOL_KIND": "prefix"}),
     V.Component("pppoepool", monitors=MON),
+    # what dhcpv6.NewPrefixPool / NewAddressPool BUILD, for every legal geometry (dhcp6 harness, constructor ops only):
+    # a free list with a repeated entry hands one prefix to two clients although every allocation step is right
+    V.Component("dhcp6pools", harness="dhcp6", drv="dhcp6", monitors=["pool-distinct", "pool-inside"], kind="gotest",
+                gen_args=["-only", "pools"]),
     # the whole PPPoE server around that pool: no two live sessions hold one address, a held address is not free, what a
     # session shows is the pool's entry for it (Spec.C16PppoeWhole.sessions_hold_distinct_addresses & co.)
     V.Component("pppoesrv", monitors=["unique", "held-free", "pool-entry"]),
